@@ -70,7 +70,6 @@ pub(crate) async fn commit_reversed_operations(
     txn: &mut dyn StorageTxn,
     undo_ops: Operations,
 ) -> Result<bool> {
-    let mut applied = false;
     let local_ops = txn.unsynced_operations().await?;
     let mut undo_ops = undo_ops.to_vec();
 
@@ -93,7 +92,7 @@ pub(crate) async fn commit_reversed_operations(
     if !ok {
         info!("Undo failed: concurrent changes to the database occurred.");
         debug!("local_ops={local_ops:#?}\nundo_ops={undo_ops:#?}");
-        return Ok(applied);
+        return Ok(false);
     }
 
     undo_ops.reverse();
@@ -103,14 +102,15 @@ pub(crate) async fn commit_reversed_operations(
         for op in rev_ops {
             trace!("Applying reversed operation {op:?}");
             apply::apply_op(txn, &op).await?;
-            applied = true;
         }
         txn.remove_operation(op).await?;
     }
 
     txn.commit().await?;
 
-    Ok(applied)
+    // The operations have been removed, even if (as for a lone undo point) reversing them
+    // changed no task.
+    Ok(true)
 }
 
 #[cfg(test)]
